@@ -34,8 +34,8 @@ PROPS = {
         "assumptions": COMMON_ASSUMPTIONS + [
             "an injected error on Put/Write/Close/Rename is what 'a write, close or rename fails' means; buf has no retry on these paths",
         ],
-        "probes_expected": {"quick": ["put-err", "write-err", "short-write", "close-err", "rename-err"],
-                            "thorough": ["put-err", "write-err", "short-write", "close-err", "rename-err"]},
+        "probes_expected": {"quick": ["put-err", "write-err", "short-write", "close-err", "rename-err", "device-full", "file-size-limit", "atomic-put-hit-file-size-limit", "more-than-a-thousand-objects"],
+                            "thorough": ["put-err", "write-err", "short-write", "close-err", "rename-err", "device-full", "file-size-limit", "atomic-put-hit-file-size-limit", "more-than-a-thousand-objects"]},
     },
     "C14": {
         "engine": "storesim",
@@ -63,8 +63,8 @@ PROPS = {
             "reads of an object with a non-atomic disk put in flight are not checked (documented as undefined)",
             "concurrent histories are short (3 clients x 7 operations, 2 paths) so that the linearizability check stays tractable; an inconclusive check is never reported",
         ],
-        "probes_expected": {"quick": ["union-duplicate-detected", "copy-between-kinds", "archive-round-trip", "reader-completed"],
-                            "thorough": ["union-duplicate-detected", "copy-between-kinds", "archive-round-trip", "reader-completed"]},
+        "probes_expected": {"quick": ["union-duplicate-detected", "copy-between-kinds", "archive-round-trip", "reader-completed", "linked-directory-in-symlink-bucket"],
+                            "thorough": ["union-duplicate-detected", "copy-between-kinds", "archive-round-trip", "reader-completed", "linked-directory-in-symlink-bucket"]},
     },
     "C13": {
         "engine": "storesim",
@@ -89,7 +89,7 @@ PROPS = {
             "only the history clause is decided; the 'exhaustively up to a length bound' clause is sampled (coverage of the short-string set is measured and reported, not assumed)",
             "normalpath_windows.go is not built on this platform",
         ],
-        "probes_expected": {"quick": ["hostile-archive", "hostile-plugin-response"], "thorough": ["hostile-archive", "hostile-plugin-response"]},
+        "probes_expected": {"quick": ["hostile-archive", "hostile-plugin-response", "put-through-dir-link"], "thorough": ["hostile-archive", "hostile-plugin-response", "put-through-dir-link"]},
     },
     "C09": {
         "engine": "cachesim",
@@ -116,8 +116,8 @@ PROPS = {
             "tampering happens only at quiescent points: lazy verification has by design no defence against modification between verification and use",
             "a key is exempt from the repair oracles (not from the no-wrong-content oracle) once one of its cached files was tampered with while its marker stayed valid",
         ],
-        "probes_expected": {"quick": ["lock-contended", "digest-mismatch-returned", "proc-crash", "machine-crash", "rename-err", "short-write", "tamper-flip", "registry-wrong-content"],
-                            "thorough": ["lock-contended", "lock-timeout", "digest-mismatch-returned", "proc-crash", "machine-crash", "rename-err", "short-write", "tamper-flip", "registry-wrong-content"]},
+        "probes_expected": {"quick": ["lock-contended", "digest-mismatch-returned", "proc-crash", "machine-crash", "rename-err", "short-write", "tamper-flip", "registry-wrong-content", "cancel", "lag"],
+                            "thorough": ["lock-contended", "lock-timeout", "digest-mismatch-returned", "proc-crash", "machine-crash", "rename-err", "short-write", "tamper-flip", "registry-wrong-content", "cancel", "lag"]},
     },
     "C01": {
         "engine": "buildsim",
@@ -143,8 +143,8 @@ PROPS = {
             "with parallelism below the number of compile tasks the order in which tasks obtain protocompile's internal semaphore is the Go runtime's choice (ambient executions); divergences found there replay statistically",
             "the reference compile uses the same protocompile source-info mode constant buf selects",
         ],
-        "probes_expected": {"quick": ["arrival-order-distinct", "build-failed-under-fault", "planted-error-located", "walk-permuted-nontrivially", "get-err", "cancel"],
-                            "thorough": ["arrival-order-distinct", "build-failed-under-fault", "planted-error-located", "walk-permuted-nontrivially", "get-err", "cancel"]},
+        "probes_expected": {"quick": ["arrival-order-distinct", "build-failed-under-fault", "planted-error-located", "walk-permuted-nontrivially", "get-err", "cancel", "built-through-the-command-line", "cli-v1-workspace", "planted-error-located-through-the-command-line"],
+                            "thorough": ["arrival-order-distinct", "build-failed-under-fault", "planted-error-located", "walk-permuted-nontrivially", "get-err", "cancel", "built-through-the-command-line", "cli-v1-workspace", "planted-error-located-through-the-command-line"]},
     },
     "C02": {
         "engine": "buildsim",
@@ -166,7 +166,7 @@ PROPS = {
             "outputs are assembled at API level the way bufctl.Controller does, because that is where a bucket can be substituted; the CLI's flag parsing is not exercised",
             "listing orders permuted: modules, --path / --exclude-path values, lint use / except ids and categories, breaking categories; plugin listing order belongs to C17",
         ],
-        "probes_expected": {"quick": ["arrival-order-distinct", "walk-permuted-nontrivially"], "thorough": ["arrival-order-distinct", "walk-permuted-nontrivially"]},
+        "probes_expected": {"quick": ["arrival-order-distinct", "walk-permuted-nontrivially", "cli-image-input-with-paths", "cli-compressed-image-run-after-run", "filter-head-of-extension-chain"], "thorough": ["arrival-order-distinct", "walk-permuted-nontrivially", "cli-image-input-with-paths", "cli-compressed-image-run-after-run", "filter-head-of-extension-chain"]},
     },
     "C08": {
         "engine": "digestsim",
@@ -195,8 +195,8 @@ PROPS = {
             "Digest() is not called from concurrent SCHEDULED tasks (parking inside a sync.OnceValues would block the others non-durably); concurrent callers run freely in a phase of their own",
             "b5 and the legacy b4 digest both have an independent reference; input-universal clauses are sampled as workload, the deciding dimensions are backend, enumeration order, read faults and stored corruption",
         ],
-        "probes_expected": {"quick": ["walk-permuted-nontrivially", "digest-failed-under-fault", "mutation-changed-digest", "mutation-left-digest", "cache-backend-verified", "dependency-change-propagated"],
-                            "thorough": ["walk-permuted-nontrivially", "digest-failed-under-fault", "mutation-changed-digest", "mutation-left-digest", "cache-backend-verified", "dependency-change-propagated"]},
+        "probes_expected": {"quick": ["walk-permuted-nontrivially", "digest-failed-under-fault", "mutation-changed-digest", "mutation-left-digest", "cache-backend-verified", "dependency-change-propagated", "remote-leaf-importing-vendored-wkt"],
+                            "thorough": ["walk-permuted-nontrivially", "digest-failed-under-fault", "mutation-changed-digest", "mutation-left-digest", "cache-backend-verified", "dependency-change-propagated", "remote-leaf-importing-vendored-wkt"]},
     },
     "C17": {
         "engine": "gensim",
@@ -219,11 +219,27 @@ PROPS = {
         "stubbed": ["plugins: in-process protoplugin.Handler values in place of exec'd binaries (tag-guarded seam in bufprotopluginexec.NewHandler)", "disk interposition for the flush"],
         "assumptions": COMMON_ASSUMPTIONS + [
             "only the multi-party / concurrent clauses are decided by simulation; request construction is pure and rides along as workload oracles",
-            "type filters (types / exclude_types) and source-retention option stripping are not exercised",
+            "WHICH files a per-plugin type filter leaves to the filtered plugin is not checked (that is the image filter's subject, C12); exclude_types is not exercised",
             "simulated plugins never produce the same name from two requests of ONE plugin: buf merges those in completion order (first wins, with a warning), which the property does not speak about",
             "whether a file keeps its final newline after an insertion point is applied is not checked",
         ],
-        "probes_expected": {"quick": ["plugin-completion-reordered", "insertion-point-applied", "generate-failed-as-expected"],
-                            "thorough": ["plugin-completion-reordered", "insertion-point-applied", "generate-failed-as-expected"]},
+        "probes_expected": {"quick": ["plugin-completion-reordered", "insertion-point-applied", "generate-failed-as-expected", "plugin-with-type-filter"],
+                            "thorough": ["plugin-completion-reordered", "insertion-point-applied", "generate-failed-as-expected", "plugin-with-type-filter"]},
     },
 }
+
+# wave 10 additions (kept apart so that the texts above stay as they were reviewed)
+PROPS["C15"]["rule"] += (" Part A ends with two executions under a REAL operating-system failure below every hook: one destination file linked to /dev/full (ENOSPC),"
+                         " and the real disk bucket UNWRAPPED with RLIMIT_FSIZE below the size of one file (EFBIG in mid-file, also on an atomic put's temp file):"
+                         " the operation must fail, atomically put objects hold old or complete content, no temp file remains. One case in forty copies 1025-2049 extra objects.")
+PROPS["C09"]["rule"] += (" Three runs in five name slow tasks (the workers a cancelled process left behind, one slow process, or its workers), which the scheduler holds back"
+                         " except at one step in 8/32/128 while anything else is enabled; cancellation prefers moments at which a parallel job is about to act.")
+PROPS["C17"]["rule"] += (" One plugin of a v2 template is sometimes restricted to one message type (types:): it may be asked for fewer files, never for others or twice; the other plugins for no fewer.")
+PROPS["C02"]["rule"] += (" Further compared outputs: the command-line image given back to buf build as an image input with --path flags in the execution's listing order;"
+                         " a compressed image written twice with the simulated clock advanced by seconds to days in between; --type lists naming the head of a chain of extensions;"
+                         " breaking annotations for editions string fields whose per-field feature changed.")
+PROPS["C01"]["rule"] += (" On-disk workspaces for the command-line builds are sometimes v1 workspaces (buf.work.yaml / buf.work, buf.yaml / buf.mod) and the commands sometimes run with"
+                         " BUF_BETA_COPY_FILES_TO_MEMORY; workspaces with a planted error are also built through the real command with the input given as a directory or a link to it.")
+PROPS["C08"]["rule"] += (" Directory names come in two Unicode normal forms; a composite scenario digests a local module that imports a remote leaf module importing a well-known type vendored by a third module.")
+PROPS["C14"]["rule"] += (" A third of the link-following disk roots have a top-level directory that is a link to a directory elsewhere; filter views include extension matchers with empty, multi-dot and dot-less arguments.")
+PROPS["C13"]["rule"] += (" A spelling of a prefix-mapped view's own root accepted by get/stat/put/delete counts as reaching outside the view; a walk whose prefix names a link to an outside directory must visit nothing.")
